@@ -56,6 +56,10 @@ def spell_str(rng, b, sym):
             out += '"\\' + rng.choice(["", " ", "\n", "\n    ", " \t "]) + '"'
     return out + '"' + ("S" if sym else "")
 
+def hexdigits(rng, v):
+    """hexadecimal digits of v, in lower or upper case (C11_grammar_...: GHex is given by its digits)"""
+    return ("%x" if rng.random() < 0.7 else "%X") % v
+
 def word(rng):
     """(text, [slots]) of one value in a randomly chosen spelling"""
     k = rng.choice("iiihhfffdcsSSkrmb")
@@ -68,11 +72,11 @@ def word(rng):
         if sp == "dec":
             return sg + "%d" % v, ["i:%d" % sv]
         if sp == "hex":
-            return sg + "0x%x" % v, ["i:%d" % w32(sv)]
+            return sg + "0x" + hexdigits(rng, v), ["i:%d" % w32(sv)]
         if sp == "deci":
             return sg + "%di" % v, ["i:%d" % sv] if not ("%d" % v).startswith("0") or v == 0 else None
         if sp == "hexi":
-            return sg + "0x%xi" % v, ["i:%d" % w32(sv)]
+            return sg + "0x" + hexdigits(rng, v) + "i", ["i:%d" % w32(sv)]
         if sp == "octi":
             return sg + "0%oi" % v, ["i:%d" % sv]
         return sg + "0%d" % v, ["i:%d" % sv]          # 077 is read by %d: decimal
@@ -85,7 +89,7 @@ def word(rng):
         if sp == "dec":
             return sg + "%dh" % v, ["h:%d" % sv]
         if sp == "hex":
-            return sg + "0x%xh" % v, ["h:%d" % sv]
+            return sg + "0x" + hexdigits(rng, v) + "h", ["h:%d" % sv]
         return sg + "0%oh" % v, ["h:%d" % sv]
     if k in "fd":
         m = rng.choice([0, 1, 3, 5, 15, 25, 125, 1024, 12345])
